@@ -58,19 +58,22 @@ Qed.
 (* ---------- the loop ---------- *)
 (* what the verdicts say about the locator: an applied verdict is exactly what locate_hunk answered for
    that hunk with the cursor and accumulated offset of that moment *)
-Fixpoint verdicts_from_locate (o : options) (f : list line) (cursor : nat) (offerr : Z)
+Fixpoint verdicts_from_locate (o : options) (p : patch) (f : list line) (cursor : nat) (offerr : Z)
          (hs : list hunk) (vs : list verdict) : Prop :=
   match hs, vs with
   | [], [] => True
   | h :: hs', VApplied pos fz :: vs' =>
-      exists l, locate_hunk f h (ignore_whitespace o) offerr (max_fuzz o) cursor = Some l /\
+      exists l, locate_for p f h (ignore_whitespace o) offerr (max_fuzz o) cursor = Some l /\
                 lline l = pos /\ lfuzz l = fz /\
-                verdicts_from_locate o f (pos + length (old_side (body h))) (sadd offerr (loffset l)) hs' vs'
+                verdicts_from_locate o p f (pos + length (old_side (body h))) (sadd offerr (loffset l)) hs' vs'
   | h :: hs', VRejected :: vs' =>
-      locate_hunk f h (ignore_whitespace o) offerr (max_fuzz o) cursor = None /\
-      verdicts_from_locate o f cursor offerr hs' vs'
+      locate_for p f h (ignore_whitespace o) offerr (max_fuzz o) cursor = None /\
+      verdicts_from_locate o p f cursor offerr hs' vs'
   | _, _ => False
   end.
+
+Lemma locate_for_some p f h ws off F lo l : locate_for p f h ws off F lo = Some l -> locate_hunk f h ws off F lo = Some l.
+Proof. unfold locate_for. destruct (_ && _); [discriminate|auto]. Qed.
 
 Lemma locate_cursor_le f h ws off F lo l : locate_hunk f h ws off F lo = Some l -> lo <= lline l.
 Proof.
@@ -87,7 +90,7 @@ Lemma apply_rest_replay o p f : define_macro o = [] ->
     a_hunks s' = a_hunks s ++ hs' /\ map body hs' = map body hs /\
     a_rejected s' = a_rejected s + count_rejected vs /\
     a_skip s' = false /\
-    verdicts_from_locate o f (a_ln s) (a_offerr s) hs vs.
+    verdicts_from_locate o p f (a_ln s) (a_offerr s) hs vs.
 Proof.
   intros Hd. induction hs as [|h hs IH]; intros k s s' Hs; cbn [apply_rest].
   - intros [= <-]. exists [], [], (skipn (a_ln s) f). cbn. rewrite app_nil_r. repeat split; auto.
@@ -97,7 +100,7 @@ Proof.
     + destruct A as (Ao & Aln & Arj & Arej & Ask & Ah & Aoff).
       destruct (IH _ _ _ Ask E2) as (vs & hs' & r & Hr & Ho & Hh & Hb & Hc & Hk & Hv).
       exists (VApplied (lline l) (lfuzz l) :: vs), (h :: hs'), (copy_range f (a_ln s) (lline l) ++ splice f (lline l) (body h) ++ r).
-      pose proof (locate_cursor_le _ _ _ _ _ _ _ El) as Hle.
+      pose proof (locate_cursor_le _ _ _ _ _ _ _ (locate_for_some _ _ _ _ _ _ _ _ El)) as Hle.
       split; [|split; [|split; [|split; [|split; [|split]]]]].
       * cbn [replay]. apply Nat.leb_le in Hle. rewrite Hle. rewrite <- Aln. rewrite Hr. reflexivity.
       * rewrite Ho, Ao. rewrite <- !app_assoc. reflexivity.
@@ -170,7 +173,7 @@ Proof.
   revert E. destruct (hunks p1) as [|h hs] eqn:Hh.
   { cbn. intros [= <-]. exists []. cbn. rewrite <- Hlen. auto. }
   cbn [apply_first].
-  set (loc := locate_hunk f h (ignore_whitespace o) (a_offerr init_state) (max_fuzz o) (a_ln init_state)).
+  set (loc := locate_for p1 f h (ignore_whitespace o) (a_offerr init_state) (max_fuzz o) (a_ln init_state)).
   assert (Gen : forall s0 h0 loc0 hs0 k, a_skip s0 = false -> a_out s0 = [] -> a_ln s0 = 0 -> a_rejected s0 = 0 -> a_hunks s0 = [] ->
      (do s' <- apply_one o p1 f 0 s0 h0 loc0; apply_rest o p1 f k s' hs0) = Ok s ->
      (loc0 = None \/ exists l, loc0 = Some l) ->
@@ -243,7 +246,7 @@ Theorem apply_patch_verdicts o f p r :
   define_macro o = [] -> force o = true -> apply_patch o f p = Ok r ->
   let hs := hunks (if reverse_patch_opt o then reverse_patch p else p) in
   exists vs, replay f 0 hs vs = Some (r_out r) /\ r_failed r = count_rejected vs /\
-             r_skipped r = false /\ verdicts_from_locate o f 0 0 hs vs.
+             r_skipped r = false /\ verdicts_from_locate o (if reverse_patch_opt o then reverse_patch p else p) f 0 0 hs vs.
 Proof.
   intros Hd Hf. unfold apply_patch.
   set (p1 := if reverse_patch_opt o then reverse_patch p else p). cbv zeta.
@@ -268,12 +271,12 @@ Fixpoint verdicts_admissible (ws : bool) (F : Z) (f : list line) (cursor : nat) 
   | _, _ => False
   end.
 
-Lemma verdicts_from_locate_admissible o f : forall hs vs cursor offerr,
-  verdicts_from_locate o f cursor offerr hs vs ->
+Lemma verdicts_from_locate_admissible o p f : forall hs vs cursor offerr,
+  verdicts_from_locate o p f cursor offerr hs vs ->
   verdicts_admissible (ignore_whitespace o) (max_fuzz o) f cursor hs vs.
 Proof.
   induction hs as [|h hs IH]; intros [|[pos fz|] vs] cursor offerr; cbn; auto.
-  - intros (l & El & <- & <- & Hv). pose proof (locate_cursor_le _ _ _ _ _ _ _ El) as Hle.
+  - intros (l & El & <- & <- & Hv). apply locate_for_some in El. pose proof (locate_cursor_le _ _ _ _ _ _ _ El) as Hle.
     split; [exact Hle|]. destruct (Z.eq_dec (rcount (oldr h)) 0) as [Hc|Hc].
     + destruct (locate_insertion _ _ _ _ _ _ _ El Hc) as (H1 & H2 & _).
       split; [right; exact Hc|]. split; [congruence|]. split; [intros _; split; [lia|exact H2]|]. eapply IH; exact Hv.
